@@ -211,12 +211,26 @@ func (d *e2eIface) VarlinkDispatch(ctx context.Context, call varlink.Call, metho
 		}
 		var err error
 		cont := j < total
-		d.log.Ev("HR", tr.M{"i": i, "j": j, "tok": 100*i + j, "continues": cont, "kind": kind, "res": "ok"})
+		absent := val == nil && kind != "std" // this reply carries no parameters at all
+		d.log.Ev("HR", tr.M{"i": i, "j": j, "tok": 100*i + j, "continues": cont, "kind": kind, "res": "ok", "absent": absent})
+		switch {
+		case kind == "reply" && absent:
+			call.Continues = cont
+			err = call.Reply(ctx, nil)
+		case kind == "error" && absent:
+			err = call.ReplyError(ctx, fmt.Sprintf("e2e.t.Err%d", i), nil)
+		}
 		switch kind {
 		case "reply":
+			if absent {
+				break
+			}
 			call.Continues = cont
 			err = call.Reply(ctx, json.RawMessage(val))
 		case "error":
+			if absent {
+				break
+			}
 			err = call.ReplyError(ctx, fmt.Sprintf("e2e.t.Err%d", i), json.RawMessage(val))
 		case "std":
 			// the value token travels as the carried name (a string)
@@ -391,6 +405,15 @@ func runE2E(log *tr.Log, sc *e2eScen, rng *rand.Rand, tmpdir string, big bool) e
 		}
 		return genValue(rng, tok, big)
 	}
+	// at most one reply of a scenario carries no parameters at all (never the first of its call: what must not
+	// happen is that it shows the parameters of the one before)
+	absentTok := -1
+	if rng.Intn(2) == 0 {
+		ci := 1 + rng.Intn(len(sc.Calls))
+		if m := sc.Calls[ci-1].More; m > 0 {
+			absentTok = 100*ci + 2 + rng.Intn(m)
+		}
+	}
 	for idx, c := range sc.Calls {
 		i := idx + 1
 		pv := gen(100 * i)
@@ -398,6 +421,10 @@ func runE2E(log *tr.Log, sc *e2eScen, rng *rand.Rand, tmpdir string, big bool) e
 		total := c.More + 1
 		iface.mu.Lock()
 		for j := 1; j <= total; j++ {
+			if 100*i+j == absentTok && !(j == total && c.Fin == "std") {
+				iface.vals[100*i+j] = nil
+				continue
+			}
 			rv := gen(100*i + j)
 			iface.vals[100*i+j] = rv
 			toks.add(100*i+j, rv)
@@ -431,9 +458,12 @@ func runE2E(log *tr.Log, sc *e2eScen, rng *rand.Rand, tmpdir string, big bool) e
 			} else {
 				fl, err = recv(ctx, &out)
 			}
-			ev := tr.M{"i": i, "j": j, "continues": fl&varlink.Continues != 0, "kind": "reply", "tok": -3, "name_ok": true, "nilout": nilOut}
+			ev := tr.M{"i": i, "j": j, "continues": fl&varlink.Continues != 0, "kind": "reply", "tok": -3, "name_ok": true, "nilout": nilOut, "absent": false}
 			if err == nil && nilOut {
 				ev["tok"] = -5 // not observable
+			} else if err == nil && len(out) == 0 {
+				ev["absent"] = true // the receive function left the out-value untouched
+				ev["tok"] = -6
 			} else if err == nil {
 				ev["tok"] = toks.find(out)
 			} else {
@@ -452,6 +482,9 @@ func runE2E(log *tr.Log, sc *e2eScen, rng *rand.Rand, tmpdir string, big bool) e
 					ev["name_ok"] = ve.Name == fmt.Sprintf("e2e.t.Err%d", i)
 					if rm, ok := ve.Parameters.(*json.RawMessage); ok && rm != nil {
 						ev["tok"] = toks.find(*rm)
+					} else {
+						ev["absent"] = true
+						ev["tok"] = -6
 					}
 				default:
 					ev["kind"] = "fail:" + err.Error()
